@@ -28,7 +28,8 @@ def run_hist(seed, n):
     from xknx.exceptions import CommunicationError, ConversionError, XKNXException
     from xknx.telegram import Telegram, TelegramDirection
     from xknx.telegram.address import parse_device_group_address
-    from xknx.telegram.apci import GroupValueWrite
+    from xknx.telegram import IndividualAddress
+    from xknx.telegram.apci import GroupValueRead, GroupValueResponse, GroupValueWrite
 
     rnd = random.Random(seed)
     rate = rnd.choice([0, 5, 20, 3, 7, 30, 1500])
@@ -43,7 +44,7 @@ def run_hist(seed, n):
             plan = {}
 
             async def send_cemi(cemi):
-                tid_ = cemi.data.payload.value.value[0]
+                tid_ = cemi.data.src_addr.raw - 0x1000        # the telegram's number travels in its source address (reads carry no value)
                 f = plan.get(tid_, "ok")
                 ev.append({"ev": "send_start", "id": tid_, "t": ms(loop.time()), "tu": int(round(loop.time() * 1e6)), "kind": ""})
                 ok = 0
@@ -81,7 +82,7 @@ def run_hist(seed, n):
             xknx.connection_manager.connection_state_changed(XknxConnectionState.CONNECTED)
 
             def dev_process(t):
-                i = t.payload.value.value[0]
+                i = t.source_address.raw - 0x1000
                 ev.append({"ev": "proc", "id": i, "t": ms(loop.time()), "kind": ""})
                 if dev_fault.get(i) == "xknx":
                     raise XKNXException("device error")
@@ -127,7 +128,8 @@ def run_hist(seed, n):
                     if x2 is not None and rnd.random() < 0.4:
                         x2.telegrams.put_nowait(Telegram(destination_address=parse_device_group_address("3/3/3"), payload=GroupValueWrite(DPTArray((200,))),
                                                          direction=rnd.choice([TelegramDirection.INCOMING, TelegramDirection.OUTGOING])))
-                    xknx.telegrams.put_nowait(Telegram(destination_address=dst, payload=GroupValueWrite(DPTArray((i,))),
+                    pay = rnd.choices([GroupValueWrite(DPTArray((i % 256,))), GroupValueRead(), GroupValueResponse(DPTArray((i % 256,)))], weights=[6, 2, 1])[0]
+                    xknx.telegrams.put_nowait(Telegram(destination_address=dst, payload=pay, source_address=IndividualAddress(0x1000 + i),
                                                        direction=TelegramDirection.INCOMING if kind == "in" else TelegramDirection.OUTGOING))
                     ev.append({"ev": "put", "id": i, "kind": kind, "t": ms(loop.time())})
                     if rnd.random() < 0.5:
